@@ -484,9 +484,14 @@ func (e *exprCtx) expr(v ssa.Value) string {
 				return "(0 == " + a + ")"
 			}
 		}
+		if op == token.AND {
+			if s, ok := e.maskAnd(x); ok {
+				return s
+			}
+		}
 		return "(" + a + " " + op.String() + " " + b + ")"
 	case *ssa.Convert:
-		return e.expr(x.X)
+		return e.convert(x)
 	case *ssa.ChangeType:
 		return e.expr(x.X)
 	case *ssa.ChangeInterface:
@@ -2367,4 +2372,232 @@ func writtenByClosures(a *ssa.Alloc) bool {
 		}
 	}
 	return false
+}
+
+
+// Integer conversions. A conversion that cannot change the value (to a wider type of the same signedness, or from an
+// unsigned type to a strictly wider signed one) is transparent. A narrowing conversion to an unsigned type is the mask
+// it applies, `(255 & x)` for byte(x), so that byte(v) and v&0xff read alike; any other value-changing conversion is
+// rendered as conv[T](x). Masks are simplified: a mask that cannot clear a bit of its operand (the operand is an
+// unsigned value shifted right far enough, or is already masked) disappears, nested masks combine.
+
+func intInfo(t types.Type) (bits int, unsigned, ok bool) {
+	b, isB := t.Underlying().(*types.Basic)
+	if !isB || b.Info()&types.IsInteger == 0 {
+		return 0, false, false
+	}
+	switch b.Kind() {
+	case types.Int8:
+		return 8, false, true
+	case types.Int16:
+		return 16, false, true
+	case types.Int32:
+		return 32, false, true
+	case types.Int64:
+		return 64, false, true
+	case types.Int:
+		return wordBits, false, true
+	case types.Uint8:
+		return 8, true, true
+	case types.Uint16:
+		return 16, true, true
+	case types.Uint32:
+		return 32, true, true
+	case types.Uint64:
+		return 64, true, true
+	case types.Uint, types.Uintptr:
+		return wordBits, true, true
+	}
+	return 0, false, false
+}
+
+// wordBits is the size of int/uint in the configuration being analysed (set by the loader).
+var wordBits = 64
+
+// sigBits: an upper bound on the number of significant bits of the non-negative value v (64 when nothing is known, and
+// for anything that may be negative).
+func sigBits(v ssa.Value, depth int) int {
+	if depth > 6 {
+		return 64
+	}
+	switch x := v.(type) {
+	case *ssa.Const:
+		if k, ok := constInt(x); ok && k >= 0 {
+			n := 0
+			for k > 0 {
+				n++
+				k >>= 1
+			}
+			return n
+		}
+		return 64
+	case *ssa.Convert:
+		db, du, ok := intInfo(x.Type())
+		sb, su, ok2 := intInfo(x.X.Type())
+		if !ok || !ok2 {
+			return 64
+		}
+		in := 64
+		if su {
+			in = sigBits(x.X, depth+1)
+			if in > sb {
+				in = sb
+			}
+		}
+		if du {
+			if in < db {
+				return in
+			}
+			return db
+		}
+		// signed target: non-negative only when the source is unsigned and fits
+		if su && in < db {
+			return in
+		}
+		return 64
+	case *ssa.BinOp:
+		switch x.Op {
+		case token.SHR:
+			if k, ok := constInt(x.Y); ok && k >= 0 {
+				n := sigBits(x.X, depth+1)
+				if n == 64 {
+					if b, u, ok := intInfo(x.X.Type()); ok && u {
+						n = b
+					} else {
+						return 64
+					}
+				}
+				if int(k) >= n {
+					return 0
+				}
+				return n - int(k)
+			}
+		case token.AND:
+			a, b := sigBits(x.X, depth+1), sigBits(x.Y, depth+1)
+			if _, isC := x.X.(*ssa.Const); !isC && a == 64 {
+				if w, u, ok := intInfo(x.X.Type()); ok && u {
+					a = w
+				}
+			}
+			if _, isC := x.Y.(*ssa.Const); !isC && b == 64 {
+				if w, u, ok := intInfo(x.Y.Type()); ok && u {
+					b = w
+				}
+			}
+			if a < b {
+				return a
+			}
+			return b
+		}
+	}
+	if cl, ok := v.(*ssa.Call); ok {
+		if bi, ok := cl.Call.Value.(*ssa.Builtin); ok && (bi.Name() == "len" || bi.Name() == "cap") {
+			return wordBits - 1
+		}
+	}
+	if b, u, ok := intInfo(v.Type()); ok && u {
+		return b
+	}
+	return 64
+}
+
+// maskOf: v is `x & (2^n - 1)` or a narrowing conversion of x to an n-bit unsigned type: returns x and n.
+func maskOf(v ssa.Value) (ssa.Value, int, bool) {
+	switch x := v.(type) {
+	case *ssa.BinOp:
+		if x.Op != token.AND {
+			return nil, 0, false
+		}
+		for _, p := range [][2]ssa.Value{{x.X, x.Y}, {x.Y, x.X}} {
+			if k, ok := constInt(p[0]); ok && k > 0 && k&(k+1) == 0 {
+				if _, isC := p[0].(*ssa.Const); isC {
+					n := 0
+					for k > 0 {
+						n++
+						k >>= 1
+					}
+					return p[1], n, true
+				}
+			}
+		}
+	case *ssa.Convert:
+		db, du, ok := intInfo(x.Type())
+		sb, _, ok2 := intInfo(x.X.Type())
+		if ok && ok2 && du && db < sb {
+			return x.X, db, true
+		}
+	}
+	return nil, 0, false
+}
+
+func (e *exprCtx) masked(inner ssa.Value, n int) string {
+	// combine nested masks, look through value-preserving conversions
+	for depth := 0; depth < 6; depth++ {
+		if y, m, ok := maskOf(inner); ok {
+			if m < n {
+				n = m
+			}
+			inner = y
+			continue
+		}
+		if cv, ok := inner.(*ssa.Convert); ok && convPreserves(cv) {
+			inner = cv.X
+			continue
+		}
+		break
+	}
+	if sigBits(inner, 0) <= n {
+		return e.expr(inner)
+	}
+	if n >= 64 {
+		return e.expr(inner)
+	}
+	return andStr(fmt.Sprint((uint64(1)<<uint(n))-1), e.expr(inner))
+}
+
+// andStr orders the operands of & the way every commutative operator is rendered.
+func andStr(a, b string) string {
+	if sortKey(b) < sortKey(a) {
+		a, b = b, a
+	}
+	return "(" + a + " & " + b + ")"
+}
+
+func (e *exprCtx) maskAnd(x *ssa.BinOp) (string, bool) {
+	inner, n, ok := maskOf(x)
+	if !ok {
+		return "", false
+	}
+	return e.masked(inner, n), true
+}
+
+func convPreserves(x *ssa.Convert) bool {
+	db, du, ok := intInfo(x.Type())
+	sb, su, ok2 := intInfo(x.X.Type())
+	if !ok || !ok2 {
+		return true // not an integer-to-integer conversion: rendered transparently as before
+	}
+	if du == su {
+		return db >= sb
+	}
+	if su && !du {
+		return db > sb || sigBits(x.X, 0) < db
+	}
+	// signed to unsigned: preserves only values known non-negative
+	return sigBits(x.X, 0) < 64 && sigBits(x.X, 0) <= db
+}
+
+func (e *exprCtx) convert(x *ssa.Convert) string {
+	if convPreserves(x) {
+		return e.expr(x.X)
+	}
+	if _, n, ok := maskOf(x); ok {
+		return e.masked(x.X, n)
+	}
+	db, du, _ := intInfo(x.Type())
+	if du && db < 64 {
+		// sign change (and possibly narrowing) into an unsigned type: the low bits of the two's complement value
+		return andStr(fmt.Sprint((uint64(1)<<uint(db))-1), e.expr(x.X))
+	}
+	return "conv[" + typeName(x.Type()) + "](" + e.expr(x.X) + ")"
 }
